@@ -47,4 +47,8 @@ def bootstrap(reexec=True):
     if not where.startswith(REPO + os.sep):
         sys.stderr.write("HARNESS-ERROR: verde imported from %s, not from %s\n" % (where, REPO))
         sys.exit(2)
+    if os.environ.get("VERIF_NO_DEFAULTS") != "1":
+        from . import defaults
+
+        defaults.install(verde)
     return verde
